@@ -325,6 +325,8 @@ def gen_plan(seed: int, mode: str):
         def parse_step():
             snap = held["snap"] = snapshot(p)  # what the parser will see
             path = path_style(rng, state["cwd"], p.root + "/" + p.main, p)
+            held["cwd"] = state["cwd"]
+            held["relative"] = not path.startswith("/")
             if use_string:
                 with_path = mode == "c18" or rng.chance(0.7)
                 if with_path:
@@ -360,6 +362,11 @@ def gen_plan(seed: int, mode: str):
             def render_step(lang=lang, opt=opt, filt=filt, endian=endian):
                 snap = held["snap"]
                 outdir, outabs = outdir_choice(snap)
+                if outdir == "" and held.get("relative") and state["cwd"] != held["cwd"]:
+                    # the default outdir is derived from the (relative) source path when render()
+                    # runs: a relative path only means the same file from the same cwd
+                    ops.append({"op": "chdir", "path": held["cwd"]})
+                    state["cwd"] = held["cwd"]
                 op = {"op": "render", "sid": sid, "lang": lang, "outdir": outdir, "outdir_abs": outabs, "opt": opt, "filter": filt, "endian": endian}
                 if not held.get("nokey"):
                     k = key_for(snap, lang, opt, filt, endian)
